@@ -57,7 +57,7 @@ PROPS = {
                      'code touches the buffer only in put/popleft is pinned by the templates and checked by the exact trace correspondence',
                      'receiver order follows from the read mutex (C09 theorems are part of this check)'],
         partial=['receivers_fifo is inherited from the lock theorems (designation_is_head), not restated on the queue model',
-                 'Props/MachineObjects.lean proves on the whole machine, for every program and every number of steps, that a closed queue stays closed and that its buffer is from then on a suffix of what it was (closed_queue_forever: nothing is stored after close, items leave from the front); that the machine refines the open queue model step by step is not proved (tied by correspondence)'],
+                 'Props/MachineObjects.lean proves on the whole machine, for every program and every number of steps, that a closed queue stays closed and that its buffer is from then on a suffix of what it was (closed_queue_forever: nothing is stored after close, items leave from the front) and that every queue is FIFO (queue_fifo_forever: after any number of steps the buffer is what it was minus items at the front plus items at the back); that the machine refines the open queue model step by step is not proved (tied by correspondence)'],
     ),
     'C11': dict(
         gen=['Stream'], props=['C11', 'MachineObjects'], model=['Prim/Stream', 'Machine/Run', 'Judge/Judges', 'Lemmas/KView', 'Lemmas/OView', 'Lemmas/OStepFrames', 'Lemmas/OStep'], harness='c11',
@@ -299,7 +299,7 @@ MANIFEST_TEXT = {
         technique='Lean 4 invariant proof over all action sequences + exact whole-machine differential traces + Lean trace judge',
         design_ref='6 (C09), 3, 4.B'),
     'C10': dict(
-        level='On the whole machine, for every program and every number of steps: closed_queue_forever, queue_identity (Props/MachineObjects.lean). Lean 4 theorems over an open queue model for every sequence of put / completed receive / close / arbitrary abort actions: '
+        level='On the whole machine, for every program and every number of steps: closed_queue_forever, queue_fifo_forever, queue_identity (Props/MachineObjects.lean). Lean 4 theorems over an open queue model for every sequence of put / completed receive / close / arbitrary abort actions: '
               'exactly_once_in_order (received ++ buffered = accepted as sequences), abort_preserves, put_on_closed, closed_stays, '
               'buffered_still_received; receiver order from the lock theorems of C09 (read mutex). Tied to streams.py by regenerated '
               'templates; the executable whole-machine model (queue + mutex + notification + kernel) reproduces the real usim to the '
